@@ -6,6 +6,8 @@ import (
 	"context"
 	"fmt"
 	"math/rand"
+	"os"
+	"strconv"
 	"strings"
 	"sync"
 	"testing"
@@ -48,8 +50,18 @@ import (
 const (
 	c08LongTTL  = 5 * time.Minute
 	c08ShortTTL = 300 * time.Millisecond
-	c08Tick     = 60 * time.Millisecond
 )
+
+// c08Tick is the heartbeat spacing of the timed histories. VERIF_C08_TICK_MS exists only
+// to self-test the oracle's tolerance paths (late heartbeats, current connection swept by
+// its node): with a spacing near/above the sweeper timeout or the lifetime the monitor
+// must stay silent on a correct tree (verdicts become "tolerated", floors may fail).
+var c08Tick = func() time.Duration {
+	if v, err := strconv.Atoi(os.Getenv("VERIF_C08_TICK_MS")); err == nil && v > 0 {
+		return time.Duration(v) * time.Millisecond
+	}
+	return 60 * time.Millisecond
+}()
 
 var c08BackendNames = []string{"memory", "redis", "hybrid-redis", "hybrid-memory", "hybrid-pernode"}
 
@@ -314,6 +326,12 @@ func (w *c08World) relogin(cl *c08Client) bool {
 	ok, err := c.mc.Login(cl.id, cl.secret, "control")
 	r0 := time.Now()
 	if !ok {
+		if _, alive := w.nodes[c.node].SM.GetConnection(c.id); !alive {
+			// the node's sweeper dropped the connection just before the message
+			cl.unsure = "current connection dropped by its node"
+			w.run.Count("current_dropped_by_node", 1)
+			return false
+		}
 		w.harnessError("re-login on %s refused: %v", w.nodes[c.node].NodeID, err)
 		return false
 	}
@@ -478,26 +496,68 @@ func (w *c08World) noteSweeps() {
 	}
 }
 
+func c08KindClass(kind string) string {
+	switch {
+	case kind == "hb":
+		return "heartbeat"
+	case kind == "re":
+		return "relogin"
+	case strings.HasPrefix(kind, "c"):
+		return "connect"
+	case strings.HasPrefix(kind, "t"):
+		return "tunnel-conn"
+	case strings.HasPrefix(kind, "z"):
+		return "late-cleanup"
+	case strings.HasPrefix(kind, "x"):
+		return "close"
+	}
+	return "start"
+}
+
 func c08NotConnected(err error) bool {
 	return coreerrors.IsCode(err, coreerrors.CodeNotFound) || coreerrors.IsCode(err, coreerrors.CodeExpired)
+}
+
+type c08Answer struct {
+	node, conn string
+	err        error
+	c2, r2     time.Time
+}
+
+func (w *c08World) ask(cl *c08Client, ni int) c08Answer {
+	var a c08Answer
+	a.c2 = time.Now()
+	a.node, a.conn, a.err = w.nodes[ni].ConnSt.FindClientNode(w.ctx, cl.id)
+	a.r2 = time.Now()
+	w.run.Count("lookups", 1)
+	return a
+}
+
+func (w *c08World) isCurrent(cl *c08Client, a c08Answer) bool {
+	c := cl.cur
+	return c != nil && a.err == nil && a.node == w.nodes[c.node].NodeID && a.conn == c.id
 }
 
 // check asks every node where every client is and judges the answers.
 func (w *c08World) check() {
 	w.be.sync()
 	w.noteSweeps()
-	var pend []c08Pending
-	for _, cl := range w.clients {
+	all := make([][]c08Answer, len(w.clients))
+	for ci, cl := range w.clients {
 		if cl.id == 0 {
 			continue
 		}
-		for ni, n := range w.nodes {
-			c2 := time.Now()
-			gotNode, gotConn, err := n.ConnSt.FindClientNode(w.ctx, cl.id)
-			r2 := time.Now()
-			w.run.Count("lookups", 1)
-			if p := w.judge(cl, ni, gotNode, gotConn, err, c2, r2); p != nil {
-				pend = append(pend, *p)
+		for ni := range w.nodes {
+			all[ci] = append(all[ci], w.ask(cl, ni))
+		}
+	}
+	// what the nodes' own sweepers did while we were asking is taken into account
+	// before judging (a node drops a connection from its table before it unregisters it)
+	w.noteSweeps()
+	for ci, cl := range w.clients {
+		for ni, a := range all[ci] {
+			if p := w.judge(cl, ni, a); p != nil {
+				w.run.Violation(p.sig, p.detail)
 			}
 		}
 	}
@@ -506,22 +566,10 @@ func (w *c08World) check() {
 			cl.cleaned--
 		}
 	}
-	if len(pend) == 0 {
-		return
-	}
-	// a verdict about a client whose current connection the node dropped while we were
-	// asking is withdrawn
-	w.noteSweeps()
-	for _, p := range pend {
-		if p.cl.unsure != "" && p.cl.cur != nil {
-			w.run.Count("verdicts_withdrawn_current_dropped", 1)
-			continue
-		}
-		w.run.Violation(p.sig, p.detail)
-	}
 }
 
-func (w *c08World) judge(cl *c08Client, asker int, gotNode, gotConn string, err error, c2, r2 time.Time) *c08Pending {
+func (w *c08World) judge(cl *c08Client, asker int, a c08Answer) *c08Pending {
+	gotNode, gotConn, err, c2, r2 := a.node, a.conn, a.err, a.c2, a.r2
 	be := w.be.name
 	mk := func(sig string, extra map[string]any) *c08Pending {
 		d := map[string]any{
@@ -595,6 +643,16 @@ func (w *c08World) judge(cl *c08Client, asker int, gotNode, gotConn string, err 
 	if !c08NotConnected(err) {
 		return mk("C08:lookup-error|backend="+be, map[string]any{"expected": exp})
 	}
+	if asker != c.node {
+		// lost for this node only? ask it again, then the node holding the connection:
+		// registrations do not come back without a client event, so "still missing here,
+		// present there afterwards" cannot be an effect of timing
+		if again := w.ask(cl, asker); again.err != nil && c08NotConnected(again.err) && again.r2.Before(c.lastKA.c.Add(w.ttl)) {
+			if home := w.ask(cl, c.node); w.isCurrent(cl, home) {
+				return mk("C08:not-visible-from-other-node|backend="+be, map[string]any{"expected": exp, "holding_node_finds_it": true})
+			}
+		}
+	}
 	if cl.broken == "" {
 		switch {
 		case !r2.Before(c.hs.c.Add(w.ttl)):
@@ -606,7 +664,11 @@ func (w *c08World) judge(cl *c08Client, asker int, gotNode, gotConn string, err 
 		case cl.cleaned > 0:
 			cl.broken = "C08:late-cleanup-erased-current|backend=" + be
 		default:
-			cl.broken = fmt.Sprintf("C08:lost-registration|after=%s|backend=%s", w.lastEv, be)
+			after := c08KindClass(w.lastEv)
+			if w.lastCl != cl.idx {
+				after = "other-client-" + after
+			}
+			cl.broken = fmt.Sprintf("C08:lost-registration|after=%s|backend=%s", after, be)
 		}
 	}
 	return mk(cl.broken, map[string]any{
